@@ -11,6 +11,8 @@ import (
 	"os/exec"
 	"regexp"
 	"strings"
+	"syscall"
+	"time"
 
 	"verif/harness/internal/checks"
 	"verif/harness/internal/core"
@@ -55,7 +57,38 @@ func supervise(id string) int {
 	var buf bytes.Buffer
 	cmd.Stdout = io.MultiWriter(os.Stdout, &buf)
 	cmd.Stderr = &buf
-	err := cmd.Run()
+	// a watchdog: a workload that does not finish is reported as inconclusive, never left hanging
+	limit := 40 * time.Minute
+	if os.Getenv("VERIF_TIER") == "thorough" {
+		limit = 5 * time.Hour
+	}
+	err := cmd.Start()
+	hung := false
+	if err == nil {
+		done := make(chan error, 1)
+		go func() { done <- cmd.Wait() }()
+		select {
+		case err = <-done:
+		case <-time.After(limit):
+			hung = true
+			cmd.Process.Signal(syscall.SIGQUIT)
+			select {
+			case err = <-done:
+			case <-time.After(10 * time.Second):
+				cmd.Process.Kill()
+				err = <-done
+			}
+		}
+	}
+	if hung {
+		run := core.NewRun(id)
+		out := buf.String()
+		if len(out) > 4000 {
+			out = out[len(out)-4000:]
+		}
+		run.Problem("the workload process did not finish within %v and was stopped:\n%s", limit, out)
+		return run.Finish()
+	}
 	code := 0
 	if err != nil {
 		code = -1
